@@ -45,10 +45,10 @@ Qed.
 
 (** * findings *)
 
-(** add_label ∥ delete_node can block each other for ever (lock level) ... *)
-Lemma label_delete_deadlock_refuted_l :
+(** BEFORE the repair of C20-K7: add_label ∥ delete_node could block each other for ever (lock level) ... *)
+Lemma label_delete_deadlock_pre_refuted_l :
   exists sched,
-    lstuck (lrun sched (linit [gtrace (GAddLabel 0 1); gtrace (GDeleteNode 0)])) = true.
+    lstuck (lrun sched (linit [gtrace_pre (PAddLabel 0 1); gtrace_pre (PDeleteNode 0)])) = true.
 Proof.
   (* thread 0 runs add_label up to label_index.write(); thread 1 takes nodes.write() *)
   exists [0; 0; 0; 0; 0; 0; 0; 0; 0; 0; 0; 1]%nat. vm_compute. reflexivity.
@@ -57,18 +57,18 @@ Qed.
 (** ... and, when they do not, leave the deleted node in the label index (step level) *)
 Definition g_one_node : lpg := sh (grun (repeat 0%nat 6) (ginit lpg0 [[GCreateNode [1]]])).
 
-Lemma label_torn_refuted_l :
-  exists progs sched, progs = [[GAddLabel 0 2]; [GDeleteNode 0]] /\ sched = [0; 1; 1; 1; 0; 0; 0]%nat /\
+Lemma label_torn_pre_refuted_l :
+  exists progs sched, progs = [[PAddLabel 0 2]; [PDeleteNode 0]] /\ sched = [0; 1; 1; 1; 0; 0; 0]%nat /\
     k_label progs = true /\
-    let c := grun sched (ginit g_one_node progs) in
+    let c := grun_pre sched (ginit_pre g_one_node progs) in
     finished c = true /\ node_live (sh c) 0 = false /\ zmem 0 (by_label (sh c) 2) = true.
 Proof. eexists; eexists. vm_compute. repeat split; reflexivity. Qed.
 
-Lemma label_addrem_torn_refuted_l :
-  exists progs sched, progs = [[GAddLabel 0 2]; [GRemoveLabel 0 2]] /\ sched = [0; 0; 0; 1; 1; 1; 1; 0]%nat /\
+Lemma label_addrem_torn_pre_refuted_l :
+  exists progs sched, progs = [[PAddLabel 0 2]; [PRemoveLabel 0 2]] /\ sched = [0; 0; 0; 1; 1; 1; 1; 0]%nat /\
     k_label progs = true /\
-    let c := grun sched (ginit g_one_node progs) in
-    finished c = true /\ outputs c = [[(GAddLabel 0 2, OB true)]; [(GRemoveLabel 0 2, OB true)]] /\
+    let c := grun_pre sched (ginit_pre g_one_node progs) in
+    finished c = true /\ outputs c = [[(PAddLabel 0 2, OB true)]; [(PRemoveLabel 0 2, OB true)]] /\
     zmem 2 (labels_of (sh c) 0) = false /\ zmem 0 (by_label (sh c) 2) = true.
 Proof. eexists; eexists. vm_compute. repeat split; reflexivity. Qed.
 
